@@ -286,6 +286,26 @@ TOut ==
             IN /\ viol' = Notes(OutViol(ev, o, l))
                /\ ex' = [ex1 EXCEPT !.closed = <<>>]       \* checked outputs are dropped from the state
 
+(* "MANY": one output with n blocks of one record each (n beyond 2^16), closed by a rotation, a second output with 3 blocks  *)
+(* closed by destruction; only counts and sizes are logged.  Every buffer call wrote a block; each output is one file (one *)
+(* type id, closing break), read back completely with the records in order; the ledgers match.                (C12 C13 C10) *)
+ManyViol(ev, ln) ==
+    LET good1 == /\ ev.out1.fin = "eof" /\ ev.out1.blocks = ev.n /\ ev.out1.ids_ok /\ ev.out1.headers = 1 /\ ev.out1.last = 255
+        good2 == /\ ev.out2.fin = "eof" /\ ev.out2.blocks = 3 /\ ev.out2.ids_ok /\ ev.out2.headers = 1 /\ ev.out2.last = 255
+    IN (IF good1 /\ good2 THEN <<>>
+        ELSE <<[l |-> ln, prop |-> "C13,C12,C02,C01", n |-> ev.n, out1 |-> ev.out1, out2 |-> ev.out2,
+                what |-> "an output holding very many blocks (or the output after it) is not one complete C-DNS file with all blocks and records in order"]>>)
+       \o (IF ev.nonzero_returns = ev.n THEN <<>>
+           ELSE <<[l |-> ln, prop |-> "C12", n |-> ev.n, what |-> "with a block size of 1 not every buffer call wrote a block", got |-> ev.nonzero_returns]>>)
+       \o (IF ev.rep1 = ev.out1.size /\ ev.rep2 + 1 = ev.out2.size THEN <<>>
+           ELSE <<[l |-> ln, prop |-> "C10", n |-> ev.n, what |-> "sum of reported byte counts differs from the size of an output holding very many blocks",
+                   rep |-> <<ev.rep1, ev.rep2>>, size |-> <<ev.out1.size, ev.out2.size>>]>>)
+TMany ==
+    /\ l <= N /\ Tr[l].e = "MANY"
+    /\ l' = l + 1 /\ execs' = execs + 1
+    /\ viol' = Notes(ManyViol(Tr[l], l))
+    /\ UNCHANGED <<ex, lost, flags>>
+
 TCrash ==
     /\ l <= N /\ Tr[l].e = "CRASH"
     /\ l' = l + 1
@@ -299,7 +319,7 @@ TEnd ==
     /\ l' = l + 1
     /\ UNCHANGED <<ex, lost, viol, execs, flags>>
 
-TraceNext == TReset \/ TCall \/ TOut \/ TCrash \/ TEnd
+TraceNext == TReset \/ TCall \/ TOut \/ TMany \/ TCrash \/ TEnd
 TraceSpec == TraceInit /\ [][TraceNext]_tvars
 TraceConsumed == TLCGet("stats").diameter - 1 = N
 =============================================================================
